@@ -779,7 +779,7 @@ func ruleFillNoBreak(c *Ctx, rule string) {
 					continue
 				}
 				for _, s := range b.Succs {
-					if !l.body[s] && !rejects(s) {
+					if !l.body[s] && !rejectsFrom(b, s) {
 						early = b
 					}
 				}
@@ -1158,6 +1158,14 @@ func notRoundedUp(v ssa.Value, fn *ssa.Function, d int) string {
 			case sf.Name() == "Min" || sf.Name() == "Max" || sf.Name() == "min" || sf.Name() == "max":
 				for _, a := range variadicValues(x.Call.Args[len(x.Call.Args)-1]) {
 					if w := notRoundedUp(a, fn, d+1); w != "" && sf.Name() != "Max" && sf.Name() != "max" {
+						return w
+					}
+				}
+				return ""
+			case inModule(sf) && sf.Blocks != nil && sf.Signature.Results().Len() == 1 && isIntegral(sf.Signature.Results().At(0).Type()):
+				// a helper of the module that computes the size: every value it returns
+				for _, r := range returnsOf(sf) {
+					if w := notRoundedUp(r.Results[0], fn, d+1); w != "" {
 						return w
 					}
 				}
